@@ -23,17 +23,86 @@ ROOT = os.path.dirname(os.path.dirname(os.path.abspath(__file__)))
 OUT = os.environ.get("VERIF_OUT") or (ROOT if not os.environ.get("VERIF_REPO") else "/tmp/verif_seed_out")
 
 
-def pmap(fn, items, jobs=None):
-    """fork-pool map for the bounded stand-ins (results must be picklable)"""
+def _pmap_child(fn, chunk, conn):
+    try:
+        conn.send([fn(x) for x in chunk])
+    except BaseException as ex:      # the harness itself failed: report, do not hang
+        conn.send(("__error__", f"{type(ex).__name__}: {ex}"))
+    finally:
+        conn.close()
+
+
+def pmap(fn, items, jobs=None, deadline_s=900, on_crash=None):
+    """parallel map for the bounded stand-ins on forked children (results must be picklable).  A child that dies or
+    outlives `deadline_s` does not hang the check: its chunk is re-run item by item to isolate the input, and that
+    input is reported through `on_crash(item, why)` (default: the check stops with exit 3, never with a verdict)."""
     import multiprocessing as mp
     items = list(items)
     if not items:
         return []
-    jobs = min(jobs or (os.cpu_count() or 4), 16, len(items))
-    if jobs <= 1:
-        return [fn(x) for x in items]
-    with mp.get_context("fork").Pool(jobs) as pool:
-        return pool.map(fn, items, chunksize=max(1, len(items) // (jobs * 4)))
+    jobs = min(jobs or (os.cpu_count() or 4), 16)
+    ctx = mp.get_context("fork")
+    nchunks = max(1, min(len(items), jobs * 4))
+    chunks = [(k, items[k::nchunks]) for k in range(nchunks)]
+    results = {}
+
+    def run(work, limit):
+        pending = list(work)
+        running = {}
+        failed = []
+        while pending or running:
+            while pending and len(running) < jobs:
+                key, chunk = pending.pop(0)
+                parent, child = ctx.Pipe(duplex=False)
+                pr = ctx.Process(target=_pmap_child, args=(fn, chunk, child))
+                pr.start()
+                child.close()
+                running[key] = (pr, parent, time.time(), chunk)
+            done = []
+            for key, (pr, conn, t0, chunk) in running.items():
+                if conn.poll(0):
+                    try:
+                        r = conn.recv()
+                    except EOFError:
+                        r = ("__error__", "child died while sending")
+                    pr.join()
+                    if isinstance(r, tuple) and r and r[0] == "__error__":
+                        failed.append((key, chunk, r[1]))
+                    else:
+                        results[key] = r
+                    done.append(key)
+                elif not pr.is_alive():
+                    failed.append((key, chunk, f"child exited with code {pr.exitcode}"))
+                    done.append(key)
+                elif time.time() - t0 > limit:
+                    pr.kill()
+                    pr.join()
+                    failed.append((key, chunk, f"no result within {limit}s"))
+                    done.append(key)
+            for key in done:
+                running.pop(key)
+            if not done:
+                time.sleep(0.01)
+        return failed
+    failed = run(chunks, deadline_s)
+    for key, chunk, why in failed:
+        sub = [((key, j), [x]) for j, x in enumerate(chunk)]
+        sub_failed = run(sub, max(30, deadline_s / 10))
+        out = []
+        bad = {k[1]: w for k, _, w in sub_failed}
+        for j, x in enumerate(chunk):
+            if j in bad:
+                if on_crash is None:
+                    raise RuntimeError(f"bounded stand-in crashed on {x!r:.200}: {bad[j]}")
+                out.append(on_crash(x, bad[j]))
+            else:
+                out.extend(results.pop((key, j)))
+        results[key] = out
+    out = [None] * len(items)
+    for k in range(nchunks):
+        for j, r in enumerate(results[k]):
+            out[k + j * nchunks] = r
+    return out
 
 
 class Finding:
